@@ -294,11 +294,20 @@ def kit_events():
     ]
 
 
+KIT_SHAPES = 11  # shapes the kit preamble appends to slide 0 (2 autoshapes, 2 connectors, text box, picture, table, 4 charts)
+
+
 def _shape_of(sl, pred, i=0):
-    c = [s for s in sl.shapes if pred(s)]
-    if not c:
+    """i in 0..1: the i-th matching KIT shape (the last KIT_SHAPES shapes of the slide); i >= 2: a matching shape the
+    start deck itself brought (PowerPoint-authored object), falling back to the kit when the deck has none."""
+    shapes = list(sl.shapes)
+    kit = [s for s in shapes[-KIT_SHAPES:] if pred(s)]
+    own = [s for s in shapes[:-KIT_SHAPES] if pred(s)]
+    if i >= 2 and own:
+        return own[(i - 2) % len(own)]
+    if not kit:
         raise O.Skip("kit object missing")
-    return c[i % len(c)]
+    return kit[i % len(kit)]
 
 
 def _chart_of(sl, cls_name):
@@ -330,15 +339,15 @@ def locate(prs, obj, a):
     if obj == "cxn":
         return _shape_of(sl, lambda s: type(s).__name__ == "Connector", a.get("i", 0))
     if obj == "pic":
-        return _shape_of(sl, lambda s: type(s).__name__ == "Picture")
+        return _shape_of(sl, lambda s: type(s).__name__ == "Picture", a.get("i", 0))
     tb = lambda s: auto(s) and s.has_text_frame and s.text_frame.text != ""  # noqa: E731
     if obj == "tf":
-        return _shape_of(sl, tb).text_frame
+        return _shape_of(sl, tb, a.get("i", 0) if a.get("i", 0) >= 2 else 0).text_frame
     if obj == "p":
-        ps = _shape_of(sl, tb).text_frame.paragraphs
+        ps = _shape_of(sl, tb, a.get("i", 0) if a.get("i", 0) >= 2 else 0).text_frame.paragraphs
         return ps[a.get("i", 0) % len(ps)]
     if obj == "font":
-        ps = _shape_of(sl, tb).text_frame.paragraphs
+        ps = _shape_of(sl, tb, a.get("i", 0) if a.get("i", 0) >= 2 else 0).text_frame.paragraphs
         p = ps[a.get("i", 0) % len(ps)]
         if not p.runs:
             raise O.Skip("no runs")
@@ -349,6 +358,9 @@ def locate(prs, obj, a):
             f = sh.fill
             if f.type is None or f.type.name != "SOLID":
                 f.solid()
+            if f.fore_color.type is None:
+                from pptx.dml.color import RGBColor
+                f.fore_color.rgb = RGBColor(0x33, 0x66, 0x99)  # brightness is documented to need a colour type
             return f.fore_color
         if obj in ("grad", "gradstop"):
             sh2 = _shape_of(sl, auto, 1)
@@ -409,7 +421,7 @@ def locate(prs, obj, a):
     if obj == "dlbl":
         return list(_chart_of(sl, "LinePlot").plots)[0].series[0].points[a.get("i", 0) % 2].data_label
     if obj == "runlink":
-        ps = _shape_of(sl, tb).text_frame.paragraphs
+        ps = _shape_of(sl, tb, a.get("i", 0) if a.get("i", 0) >= 2 else 0).text_frame.paragraphs
         p = ps[a.get("i", 0) % len(ps)]
         if not p.runs:
             raise O.Skip("no runs")
@@ -518,7 +530,10 @@ def g_set(r):
         v = r.choice(e["bad"])
     else:
         v = e["good"](r) if callable(e["good"]) else r.choice(e["good"])
-    return {"entry": eid, "v": v, "kind": kind, "slide": 0, "i": r.randint(0, 1)}
+    i = r.randint(0, 1)
+    if e["obj"] in ("shape", "pic", "tf", "p", "font", "cxn") and r.random() < 0.3:
+        i = r.randint(2, 5)   # an object the start deck brought along, when there is one
+    return {"entry": eid, "v": v, "kind": kind, "slide": 0, "i": i}
 
 
 @O.op("c09.set", "c09", weight=10.0)
@@ -539,7 +554,7 @@ def _set(w, deck, a):
         v = dec(a["v"])
     except (ValueError, KeyError, AttributeError):
         raise O.Skip("value spec not decodable here")
-    key = "%s|%d" % (a["entry"], a.get("i", 0) if e["obj"] in ("shape", "p", "font", "cell", "col", "row", "barseries", "lineseries", "marker", "gradstop", "cxn", "dlbl", "runlink", "clicklink") else 0)
+    key = "%s|%d" % (a["entry"], a.get("i", 0) if e["obj"] in ("shape", "p", "font", "cell", "col", "row", "barseries", "lineseries", "marker", "gradstop", "cxn", "dlbl", "runlink", "clicklink", "tf", "pic") else 0)
     before_self = norm(sget(o, e))
     others = read_all(o, e["obj"], e["group"])
     try:
@@ -673,9 +688,18 @@ def gen_trace(seed: int, tier: str) -> dict:
     n = r.randint(10, 40) if tier == "quick" else r.randint(25, 120)
     events, sw = common.gen_history(seed, n_events=n, families=["c09"], always=("c09",), ckpt=0.05, reopen=0.06, restart=0.03,
                                     observe=0.01, jump=0.0, fork=0.0, warmup=False)
-    pre = [dict(e, dt=1.0) for e in kit_events()]
-    return {"property": ID, "seed": seed, "tier": tier, "config": {"max_slides": 3, "max_shapes": 40},
-            "start": [{"deck": "default", "form": S("start").choice(["stream", "path", "dir"])}], "events": pre + events}
+    pre = [dict(e, dt=1.0) for e in kit_events()] + [{"op": "checkpoint", "sink": "seekable", "dt": 1.0}]  # the kit is durable
+    return {"property": ID, "seed": seed, "tier": tier, "config": {"max_slides": 40, "max_shapes": 80},
+            "start": [_start(S("start"))], "events": pre + events}
+
+
+def _start(rs):
+    """fresh objects on the default template, or the kit on top of a corpus deck (slide 0 then also offers the deck's own
+    PowerPoint-authored objects to the navigators)"""
+    form = rs.choice(["stream", "path", "dir"])
+    if rs.random() < 0.3:
+        return {"deck": rs.choice(common.corpus_decks()), "form": form}
+    return {"deck": "default", "form": form}
 
 
 def make_oracles(trace):
